@@ -510,6 +510,17 @@ func tryConvertToFloat(v any) (float64, bool) {
 // their values, they compare on an equal footing.
 // This function can never fail, so it's not named "tryConvert" like the others.
 func convertToString(v any) string {
+	// %v prints a float in exponent notation from 1e+06 up (and a float32 with
+	// fewer digits than the same number held in a float64), so a number would
+	// read differently depending on whether it was sent as an integer, a
+	// 32-bit or a 64-bit float. Print floats in plain decimal notation, which
+	// is what %v gives for integers.
+	switch f := v.(type) {
+	case float64:
+		return strconv.FormatFloat(f, 'f', -1, 64)
+	case float32:
+		return strconv.FormatFloat(float64(f), 'f', -1, 64)
+	}
 	return fmt.Sprintf("%v", v)
 }
 
